@@ -5,3 +5,4 @@ CONSTANTS
   ProgChoices <- ProgsTiny
 INVARIANTS Inv_NoRace Inv_NotStuck Inv_CacheAgree
 CHECK_DEADLOCK FALSE
+\* expected result of this configuration: Invariant Inv_NoRace is violated (non-vacuity self-test, asserted by props/C17.py)
